@@ -43,7 +43,7 @@ type verifExpr struct {
 func vx(path ...any) *verifExpr { return &verifExpr{path: path, id: fmt.Sprint(path...)} }
 
 func (e *verifExpr) Type(s schema.Scope, f map[string]schema.Function, c map[string][]byte) (schema.Type, error) {
-	return nil, nil
+	return schema.NewAnySchema(), nil
 }
 
 func (e *verifExpr) Dependencies(s schema.Type, f map[string]schema.Function, c map[string][]byte, r expressions.UnpackRequirements) ([]expressions.Path, error) {
